@@ -64,19 +64,31 @@ J05(t, k) ==
 
 (* C06 : normal_form / normalize                                           *)
 StepLegal(a, b) == \E p \in 1..(Len(a.boxes) - 1) : b \in Adj(a, p)
+\* Class(pre) is only enumerated for small diagrams; for the long instances (spirals)
+\* reachability is established by the recorded normalize() steps, each of which must be
+\* a single admissible interchange, and the normal form must be the last of them.
+SmallEnough(pre) == Len(pre.boxes) <= 6
+LastStepOf(t, c) == LET n == t.calls[c.ref] IN
+                    IF Len(n.steps) = 0 THEN Pre(t, c.ref) ELSE AsDiag(n.steps[Len(n.steps)])
 J06(t, k) ==
   LET c == t.calls[k] pre == Pre(t, k) IN
   IF c.op = "normal_form" THEN
      IF Connected(pre) THEN
         IF c.exc # "" THEN "connected-diagram-not-normalised"
         ELSE LET r == AsDiag(c.res) IN
-             IF r \notin Class(pre) THEN "not-reachable-by-interchanges"
-             ELSE IF c.ref > 0 /\ t.calls[c.ref].exc = "" /\ r # AsDiag(t.calls[c.ref].res)
+             IF SmallEnough(pre) /\ r \notin Class(pre) THEN "not-reachable-by-interchanges"
+             ELSE IF ~SameBoxes(r, pre) \/ r.dom # pre.dom \/ r.cod # pre.cod \/ ~WellTyped(r)
+                  THEN "not-reachable-by-interchanges"
+             ELSE IF c.ref > 0 /\ t.calls[c.ref].op = "normalize" /\ t.calls[c.ref].exc = ""
+                     /\ r # LastStepOf(t, c)
+                  THEN "normal-form-is-not-the-last-normalize-step"
+             ELSE IF c.ref > 0 /\ t.calls[c.ref].op = "normal_form" /\ t.calls[c.ref].exc = ""
+                     /\ r # AsDiag(t.calls[c.ref].res)
                   THEN "class-members-have-different-normal-forms"
              ELSE "ok"
      ELSE IF c.exc = "NotImplementedError" THEN "ok"
      ELSE IF c.exc # "" THEN "unexpected-exception"
-     ELSE IF AsDiag(c.res) \notin Class(pre) THEN "not-reachable-by-interchanges"
+     ELSE IF SmallEnough(pre) /\ AsDiag(c.res) \notin Class(pre) THEN "not-reachable-by-interchanges"
      ELSE "ok"
   ELSE IF c.op = "normalize" THEN
      LET seq == <<pre>> \o [s \in 1..Len(c.steps) |-> AsDiag(c.steps[s])] IN
